@@ -108,6 +108,8 @@ impl PkeSealingVersion for V1 {
         let ak = mac.finalize().into_bytes();
 
         let mut edk = key.0;
+        #[cfg(paseto_verif)]
+        let n = crate::verif::ctr_block(n);
         ctr::Ctr128BE::<aes::Aes256>::new(&ek, &n).apply_keystream(&mut edk);
 
         let mut tag = hmac::Hmac::<sha2::Sha384>::new_from_slice(&ak).unwrap();
@@ -172,6 +174,8 @@ impl PkeUnsealingVersion for V1 {
         mac.update(r.as_bytes());
         let (ek, n) = mac.finalize().into_bytes().split();
 
+        #[cfg(paseto_verif)]
+        let n = crate::verif::ctr_block(n);
         ctr::Ctr128BE::<aes::Aes256>::new(&ek, &n).apply_keystream(edk);
 
         Ok(LocalKey(*edk))
